@@ -97,6 +97,8 @@ def make_spec(rng, idx=0):
     spec["typed_narrowing"] = feature()
     # a value mapping that lists only the values that ARE renamed on disk (unlisted values pass through unchanged)
     spec["partial_mapping"] = feature()
+    # a folder level that exists only on disk: a path-template key that is NO Sid key, filled by path_defaults
+    spec["template_default_key"] = feature()
     if spec["partial_mapping"] and len(spec["projects"]) < 2:
         spec["projects"] = (spec["projects"] + [p for p in ["hamlet", "macbeth", "lear", "othello"] if p not in spec["projects"]])[:2]
     spec["path_defaults"] = feature()
@@ -188,7 +190,7 @@ def write_package(spec, directory):
             kp["{%s:%s}" % (E, g)] = "{%s:%s}" % (E, _closed(exts + [a for a in spec["aliases"] if set(spec["aliases"][a]) <= set(exts)]))
         key_patterns[b] = kp
         # path templates
-        root = "{@root}/{%s}/%s/{%s:%s}" % (P, spec["folders"]["prod"], T, bt["folder"])
+        root = "{@root}/{%s}/%s%s/{%s:%s}" % (P, "{dept0}/" if spec.get("template_default_key") else "", spec["folders"]["prod"], T, bt["folder"])
         dirs = root
         lvl_dirs = []
         for l in bt["levels"]:
@@ -260,6 +262,8 @@ def write_package(spec, directory):
             f.write("path_templates = %s\n" % pdict(path_templates))
             f.write("path_templates = {k: v.replace('{@root}', project_root_path.as_posix()) for k, v in path_templates.items()}\n")
             pdef = {S: list(mapping[S].keys())[0]} if spec.get("path_defaults") else {}
+            if spec.get("template_default_key"):
+                pdef["dept0"] = "3D"
             f.write("path_defaults = %r\nsidkeys_to_extrakeys = {}\nextrakeys_to_sidkeys = {}\nsearch_path_mapping = {}\n" % pdef)
             f.write("path_mapping = %r\n" % mapping)
             f.write("key_patterns = copy.deepcopy(_kp)\n")
